@@ -198,6 +198,12 @@ func (in *Interp) newInput(st *State, name string, sort Sort, lo, hi *big.Rat) *
 		return RatC(sort, v)
 	}
 	t := Var(sort, "in_"+sanitize(name), lo, hi)
+	same := func(a, b *big.Rat) bool { return (a == nil) == (b == nil) && (a == nil || a.Cmp(b) == 0) }
+	if !same(t.Lo, lo) || !same(t.Hi, hi) {
+		// the variable exists already (another path) with a different declared range: the interval attached to the
+		// term would be wrong for this path
+		panic(unsupported("input " + name + " declared with different ranges on different paths (use distinct names)"))
+	}
 	for _, o := range st.Inputs {
 		if o == t {
 			return t
